@@ -154,9 +154,30 @@ def apply(eng, z, name, args, ret):
         f, t = _arg(eng, a)
         forms += f
         terms.append(t)
+    if forms == "N" and name in ("strip", "lstrip", "rstrip"):
+        forms = ""  # s.strip(None) is s.strip()
     fname = ALIAS.get((name, forms)) or ("str." + name + (":" + forms if forms else ""))
     f = z3.Function(fname, _I, *[t.sort() for t in terms], {"str": _I, "bool": _B, "int": _I}[ret])
+    if forms == "" and name in ("strip", "lstrip", "rstrip", "isspace"):
+        _blank_facts(eng, z)
     return f(z, *terms)
+
+
+def _blank_facts(eng, z):
+    """the few facts about whitespace stripping the model knows (instances for the receiver z; each is a property of CPython's str,
+    tools/xcheck_strmodel.py): a text is blank (empty or isspace) iff stripping it on either side or both leaves nothing; stripping twice
+    is stripping once; a text that isspace is not empty"""
+    key = ("strblank", z.get_id())
+    if eng is None or key in eng.ghost:
+        return
+    eng.ghost[key] = z  # keeps the term alive (z3 reuses ids of freed terms)
+    blank = z3.Function("is_blank", _I, _B)(z)
+    fs = {n: z3.Function("str." + n, _I, _I) for n in ("strip", "lstrip", "rstrip")}
+    facts = [z3.Implies(blank, z != 0), z3.Implies(z == 0, z3.And(*[f(z) == 0 for f in fs.values()]))]
+    for f in fs.values():
+        facts.append((f(z) == 0) == z3.Or(blank, z == 0))
+        facts.append(f(f(z)) == f(z))
+    eng.assume(z3.And(*facts))
 
 
 def method(eng, recv, name):
